@@ -45,7 +45,7 @@ func checkDefs() map[string]CheckDef {
 			{Pkg: "internal/verifh/c17", Harness: "VerifC17StateID", Quick: map[string]int{"K": 1, "exact": 1}, TV: 5},
 		},
 		Assumptions: append(append([]string{}, commonAssumptions...), cryptoAssumptions...),
-		BoundsText:  "parameter sets with 2 participants (3 in the variant family, 2..3 base in thorough), sim addresses with symbolic coordinates of K bytes (quick: exactly 1 byte; thorough: 0..1 bytes and exactly 2 bytes), nonce K bytes, symbolic challenge duration (non-zero), flags, app in {none, MockApp with symbolic definition}, aux bytes 0 and 255 symbolic; pairs: every single-field variant (incl. participant swap, one participant more) and independent pairs; validation boundaries concrete: 0,1,1024,1025 participants, nonce of exactly 32 and 33 bytes, duration symbolic",
+		BoundsText:  "parameter sets with 2 participants (3 in the variant family), sim addresses with symbolic coordinates of exactly 1 byte, nonce of every length 0..2 bytes, symbolic challenge duration (non-zero), flags, app in {none, MockApp with symbolic definition}, aux bytes 0 and 255 symbolic; pairs: every single-field variant (incl. participant swap, one participant more) and independent pairs; validation boundaries concrete: 0,1,1024,1025 participants, nonce of exactly 32 and 33 bytes, duration symbolic",
 		Outside:     []string{"participants with several addresses (map iteration order)", "backends other than sim", "more than 3 participants in the injectivity obligations"},
 	})
 	add(CheckDef{
@@ -119,7 +119,7 @@ func checkDefs() map[string]CheckDef {
 			"allocation bound: a decoder may pass at most 65536 to make before it has read the elements (the largest count a 16-bit length field can declare); natively the bound is confirmed through the bytes allocated by the decoder",
 			"window model: templates are concrete valid encodings (1 asset, 2 participants, 1 sub-allocation with index map, MockApp registered); the window content and an optional truncation point are arbitrary",
 			"protobuf model: well-formed generated structs with exactly one deviation (a nil sub-message, a repeated field with one element more or less, a byte field that is absent, one byte long or one byte too long, an arbitrary backend key, an arbitrary app definition); leaves are concrete except at the deviation"),
-		BoundsText: "buffer model: each of 20 decoder entry points (perunio BigInt/string/scalars, Balances, SubAlloc, Allocation, State, Params, Transaction, wallet and wire address maps and arrays, Sig, SparseSigs for 0..3 slots, OptApp, OptAppAndData, wire.DecodeMsg, perunio envelope serializer) on a fully symbolic buffer of every length 0..L (L=6 quick, 8 thorough); declared counts are read back from the buffer and compared with the documented limits on success; window model: W=4 arbitrary bytes at every 4-aligned offset of a valid encoding, optionally truncated inside or right after the window (quick: State, Params, Envelope, AuthResponse, LedgerChannelProposalAcc, ChannelUpdateAcc; thorough: all 18 templates incl. all composite messages); protobuf: 8 message kinds x up to 70 deviation sites through the real serializer.Decode",
+		BoundsText: "buffer model: each of 20 decoder entry points (perunio BigInt/string/scalars, Balances, SubAlloc, Allocation, State, Params, Transaction, wallet and wire address maps and arrays, Sig, SparseSigs for 0..3 slots, OptApp, OptAppAndData, wire.DecodeMsg, perunio envelope serializer) on a fully symbolic buffer of every length 0..L (L=6); declared counts are read back from the buffer and compared with the documented limits on success; window model: W=4 arbitrary bytes at every 4-aligned offset of a valid encoding, optionally truncated inside or right after the window (State, Params, Envelope, AuthResponse, LedgerChannelProposalAcc, ChannelUpdateAcc; bound allTemplates=1 adds the 12 other templates incl. all composite messages - not part of the registered tiers); protobuf: 8 message kinds x up to 70 deviation sites through the real serializer.Decode",
 		Outside:    []string{"proto.Unmarshal itself", "two simultaneous deviations in one protobuf message", "windows wider than 4 bytes", "memory exhaustion below the allocation bound"},
 	})
 	add(CheckDef{
